@@ -16,6 +16,20 @@ CLAIMED = {
    note=TB + "Modelled, not verified: the C++ bit operations are written arithmetically in the model (stated in ScriptNum.v); the tie is the exhaustive/stratified differential run.",
    technique="Coq proof (induction on byte lists, lia/nia) + exhaustive differential correspondence against extracted model",
    ref="DESIGN.md §2 C18"),
+ "C02": dict(
+   text="Theorems (Properties/C02.v), parametric in SHA-256 and the two elliptic-curve verification predicates: the legacy script-code "
+        "serialisation equals the length-prefixed script with every OP_CODESEPARATOR operation removed (any script that decodes); SIGHASH_SINGLE "
+        "without output signs 1; BIP143 cache transparency; undefined Schnorr hash types have no digest; the BIP341 message commits to the annex "
+        "flag, to key-vs-script path and to the code-separator position; the ECDSA/Schnorr checkers accept exactly when the verification predicate "
+        "accepts the body for the digest selected by the hash-type byte; CHECKSIG's result is that verdict (after FindAndDelete for legacy), "
+        "encoding errors by flag in the stated order, NULLFAIL; the CHECKMULTISIG loop equals the greedy in-order matching, which succeeds iff an "
+        "order-preserving one-key-per-signature matching exists; tapscript charges 50 weight per non-empty signature and fails when exhausted. "
+        "Tie: independently signed spends (all output types, hash types, code separators, encodings x flag subsets, corruptions, unsigned-field "
+        "alterations, weight budgets): full session state AND the (digest, key, signature) arguments of every verification call, implementation "
+        "vs model, plus validity by construction.",
+   note=TB + "secp256k1 itself (ECDSA/Schnorr verification, low-S test) is outside the model: an oracle answered by tools/refcrypto.py and compared with the implementation's verdicts through the session outcome. The legacy/BIP143/BIP341 preimage layouts are hand-modelled (Sighash.v) and cross-checked by tools/gen_spend.py's independent implementation. Known finding F31.",
+   technique="Coq proofs about digest models and signature opcodes + differential correspondence incl. verification-call arguments (ld --wrap) with independently signed spends",
+   ref="DESIGN.md §2 C02"),
  "C03": dict(
    text="Theorems (Properties/C03.v): the selected input references the funding transaction through an existing output, an explicit selection is "
         "honoured or refused, automatic selection takes the first referencing input; amount and locking script come from the referenced output; "
